@@ -32,6 +32,12 @@ static inline __int128 p2floor(__int128 v) { __int128 p = 1; while (p * 2 <= v) 
 // ------------------------------------------------------------- power-of-two family (domain: x > 0, result representable)
 template <typename T> static void op_pow2(const Case& c, Outcome& o) {
   const int w = sizeof(T) * 8; uint64_t xp = c.w[0] & wmask(w); __int128 x = sval<T>(xp);
+  if (x == 0) {   // outside the statement's value domain (counted trivial), but no precondition excludes a zero: isPowerOfTwo / prevPowerOfTwo / floorPowerOfTwo are
+    // still evaluated, scalar and with zero lanes next to non-zero ones, so that an instrumented build (C20) sees what they execute for it
+    T z = val<T>(xp); uint64_t acc = (uint64_t)glm::isPowerOfTwo(z) + (uint64_t)glm::prevPowerOfTwo(z) + (uint64_t)glm::floorPowerOfTwo(z);
+#define P2Z(L) { glm::vec<L, T> v(z); if (L > 1) v[L - 1] = T(6); acc += (uint64_t)glm::prevPowerOfTwo(v)[0] + (uint64_t)glm::floorPowerOfTwo(v)[L - 1] + (uint64_t)glm::isPowerOfTwo(v)[0]; }
+    P2Z(1) P2Z(2) P2Z(3) P2Z(4)
+    o.res(acc); o.nontrivial = false; return; }
   if (x <= 0) { o.nontrivial = false; return; }
   __int128 up = p2ceil(x), dn = p2floor(x); bool p2 = ispow2(x); bool upok = up <= tmax<T>();
   o.cls(p2 ? 0 : 1);
